@@ -159,8 +159,16 @@ Definition may_move (s : state) (o : op) (y : nat) : Prop :=
   | OAppend _ x | OInsert _ x _ | OShiftL _ x _ | OShiftR _ x _
   | OMuxInsert _ x _ _ | OMuxShiftL _ x _ | OMuxShiftR _ x _ => y = x
   | OCompact m => In y (glay s m)
-  | OSetType x _ | OSetEnum x _ => exists L, In x (lay s L) /\ In y (lay s L)
-  | OAddValue _ _ | OUpdateIndex _ _ => True      (* not characterised here: see NOTES *)
+  (* a size change moves exactly candidates of [moved_in]: in a layout holding x, every follower on
+     shrink, the followers the push reaches on growth *)
+  | OSetType x n => exists L, In y (moved_in (sz s) (rel s) (lay s L) x (n - sz s x))
+  | OSetEnum x e => exists L, In y (moved_in (sz s) (rel s) (lay s L) x (esize s e - sz s x))
+  | OAddValue e idx =>
+      exists x L, In x (erefs s e) /\ In y (moved_in (sz s) (rel s) (lay s L) x (esize_of (emin s e) idx - esize s e))
+  | OUpdateIndex v idx =>
+      exists e x L, vpar s v = Some e /\ In x (erefs s e)
+        /\ In y (moved_in (sz s) (rel s) (lay s L) x
+                   (esize_of (emin s e) (Z.max (Z.max 0 idx) (max_index s (lrem v (evals s e)))) - esize s e))
   | _ => False
   end.
 
@@ -175,7 +183,7 @@ Proof. induction xs as [|x r IH]; intros s u; cbn [fold_left]; [reflexivity|]. r
 
 Ltac same_rel := cbn; autorewrite with reg; reflexivity.
 
-Theorem frame_positions_partial : forall s o y, InvA s -> ok_op s o ->
+Theorem frame_positions : forall s o y, InvA s -> ok_op s o ->
   rel (fst (step s o)) y <> rel s y -> may_move s o y.
 Proof.
   intros s o y HA Hop Hy. destruct o; cbn [step may_move ok_op] in *.
@@ -213,19 +221,53 @@ Proof.
     rewrite Eold in Hop.
     pose proof (sig_modify_post0 s x (size - old) HA ltac:(lia) Hop) as P.
     destruct (sig_modify_size s x (size - old)) as [s1 r]. cbn [fst snd] in P. destruct P as [p [-> [_ [_ Pfr]]]].
-    destruct (Pfr y ltac:(destruct r; exact Hy)) as (L & A & B & _). exists L. split; assumption.
+    destruct (Pfr y ltac:(destruct r; exact Hy)) as (L & A & _). exists L. rewrite Eold. exact A.
   - destruct (vsig s x && venum s e); [|exfalso; apply Hy; reflexivity]. unfold step_set_enum in Hy. destruct (kind s x) as [|old|] eqn:Ek; try (exfalso; apply Hy; reflexivity).
     assert (Hnew : 1 <= sz s x + (esize s e - sz s x)).
     { unfold esize. pose proof (esize_of_pos (emin s e) (emax s e) (a_emax s HA e)). lia. }
     pose proof (sig_modify_post0 s x (esize s e - sz s x) HA Hnew Hop) as P.
     destruct (sig_modify_size s x (esize s e - sz s x)) as [s1 r]. cbn [fst snd] in P. destruct P as [p [-> [_ [_ Pfr]]]].
-    destruct (Pfr y ltac:(destruct r; exact Hy)) as (L & A & B & _). exists L. split; assumption.
-  - exact I.
+    destruct (Pfr y ltac:(destruct r; exact Hy)) as (L & A & _). exists L. exact A.
+  - (* AddValue *)
+    destruct (venum s e); [|exfalso; apply Hy; reflexivity]. unfold step_add_value in Hy.
+    set (v := nval s) in *.
+    set (s0 := set_nval (set_vpar (set_vidx s (upd (vidx s) v idx)) (upd (vpar s) v None)) (S v)) in *.
+    assert (H0 : InvA s0) by (apply InvA_alloc_val; exact HA).
+    destruct (verify_value_index s0 e idx); try (exfalso; apply Hy; reflexivity).
+    change (emax s0 e) with (emax s e) in Hy. change (emin s0 e) with (emin s e) in Hy. change (esize s0 e) with (esize s e) in Hy.
+    set (amt := esize_of (emin s e) idx - esize s e) in *.
+    destruct (Z.ltb_spec (emax s e) idx) as [Hlt|Hge].
+    2:{ exfalso. apply Hy. cbn. destruct (emax s e <? idx); reflexivity. }
+    destruct (Z.eq_dec amt 0) as [E0|Ne].
+    { exfalso. apply Hy. rewrite E0. unfold enum_modify_size. cbn. destruct (emax s e <? idx); reflexivity. }
+    assert (Hnew : 1 <= esize s0 e + amt).
+    { unfold amt. change (esize s0 e) with (esize s e). pose proof (esize_of_pos (emin s e) idx ltac:(pose proof (a_emax s HA e); lia)). lia. }
+    destruct (enum_modify_post s0 e amt H0 Hnew ltac:(apply Hop; [exact Hlt|unfold amt in Ne; lia])) as (p & E1 & _ & _ & Mw & _).
+    destruct (enum_modify_size s0 e amt) as [s1 r]. cbn [fst] in E1. subst s1.
+    assert (Ey : p y <> rel s y).
+    { intros C. apply Hy. rewrite <- C. destruct r; cbn; try reflexivity. destruct (emax s e <? idx); reflexivity. }
+    destruct (Mw y Ey) as (d & L & Hd & Hmv & _). exists d, L. split; [exact Hd|exact Hmv].
   - apply Hy. destruct (venum s e); [|reflexivity]. unfold step_remove_value. destruct (negb (memb v (evals s e))); [reflexivity|]. cbn [fst].
     destruct (vidx s v =? emax s e); reflexivity.
   - apply Hy. destruct (venum s e); reflexivity.
   - apply Hy. destruct (venum s e); reflexivity.
-  - exact I.
+  - (* UpdateIndex *)
+    destruct (vval s v); [|exfalso; apply Hy; reflexivity]. unfold step_update_index in Hy.
+    destruct (vidx s v =? idx); [exfalso; apply Hy; reflexivity|].
+    destruct (vpar s v) as [e|] eqn:Evp; [|exfalso; apply Hy; reflexivity].
+    destruct (verify_value_index s e idx); try (exfalso; apply Hy; reflexivity).
+    set (newmax := Z.max (Z.max 0 idx) (max_index s (lrem v (evals s e)))) in *.
+    set (amt := esize_of (emin s e) newmax - esize s e) in *.
+    assert (Hnm : 0 <= newmax) by (unfold newmax; lia).
+    assert (Hnew : 1 <= esize s e + amt).
+    { unfold amt. pose proof (esize_of_pos (emin s e) newmax Hnm). lia. }
+    destruct (Z.eq_dec amt 0) as [E0|Ne].
+    { exfalso. apply Hy. rewrite E0. unfold enum_modify_size. cbn. reflexivity. }
+    destruct (enum_modify_post s e amt HA Hnew ltac:(apply (Hop e eq_refl); fold newmax; unfold amt in Ne; lia)) as (p & E1 & _ & _ & Mw & _).
+    destruct (enum_modify_size s e amt) as [s1 r]. cbn [fst] in E1. subst s1.
+    assert (Ey : p y <> rel s y).
+    { intros C. apply Hy. rewrite <- C. destruct r; cbn; reflexivity. }
+    destruct (Mw y Ey) as (d & L & Hd & Hmv & _). exists e, d, L. split; [reflexivity|split; [exact Hd|exact Hmv]].
   - destruct (vmux s u && vsig s x); [|exfalso; apply Hy; reflexivity]. unfold step_mux_insert in Hy.
     destruct (if memb x (unames s u) then false else _); [exfalso; apply Hy; reflexivity|].
     destruct (Nat.eq_dec y x) as [Ex|NE]; [exact Ex|]. exfalso. apply Hy.
@@ -258,4 +300,154 @@ Proof.
     unfold step_resize. destruct (bytes <? 0); [reflexivity|]. destruct (gbytes s m =? bytes); [reflexivity|]. destruct (2 ^ 60 - 1 <? bytes); [reflexivity|].
     destruct (verify_resize (sz s) (rel s) (glsize s m) (glay s m) (bytes * 8)); reflexivity.
   - apply Hy. destruct (vsig s x); reflexivity.
+Qed.
+
+(* --- relative order ------------------------------------------------------------------------------------ *)
+
+(* y occurs before z in the list *)
+Fixpoint before (l : list nat) (y z : nat) : Prop :=
+  match l with
+  | [] => False
+  | t :: r => (t = y /\ In z r) \/ before r y z
+  end.
+
+Lemma before_total : forall l y z, In y l -> In z l -> y <> z -> before l y z \/ before l z y.
+Proof.
+  induction l as [|t r IH]; intros y z Hy Hz Hne; [contradiction|]. cbn [before].
+  destruct Hy as [->|Hy]; destruct Hz as [->|Hz].
+  - congruence.
+  - left. left. split; [reflexivity|exact Hz].
+  - right. left. split; [reflexivity|exact Hy].
+  - destruct (IH y z Hy Hz Hne) as [A|A]; [left; right; exact A|right; right; exact A].
+Qed.
+
+Lemma ok_before : forall pos len l lo size y z, ok pos len lo size l -> before l y z -> pos y < pos z.
+Proof.
+  induction l as [|t r IH]; intros lo size y z H Hb; [contradiction|]. cbn [ok] in H. destruct H as (H1 & H2 & H3 & H4).
+  destruct Hb as [[-> Hz]|Hb]; [|eapply IH; eauto].
+  pose proof (ok_In _ _ _ _ _ _ H4 Hz). lia.
+Qed.
+
+(* in a well-formed layout the order of the positions is the order of the list *)
+Lemma ok_order : forall pos len l lo size y z, ok pos len lo size l -> In y l -> In z l ->
+  (pos y < pos z <-> before l y z).
+Proof.
+  intros * H Hy Hz. split; [|apply (ok_before _ _ _ _ _ _ _ H)].
+  intros Hlt. destruct (Nat.eq_dec y z) as [->|Hne]; [lia|].
+  destruct (before_total l y z Hy Hz Hne) as [A|A]; [exact A|]. pose proof (ok_before _ _ _ _ _ _ _ H A). lia.
+Qed.
+
+(* the lists of the layouts *)
+Definition lists (s : state) := (glay s, ugroups s).
+
+Lemma lay_lists : forall s s', lists s' = lists s -> forall L, lay s' L = lay s L.
+Proof. intros s s' E [m|u g]; unfold lists in E; inversion E as [[E1 E2]]; cbn [lay]; unfold gget; rewrite ?E1, ?E2; reflexivity. Qed.
+
+Lemma lists_msg_modify : forall s m x a, lists (fst (msg_modify_size s m x a)) = lists s.
+Proof.
+  intros. unfold msg_modify_size. destruct (a =? 0); [reflexivity|]. destruct (negb (memb x (gsigs s m))); [reflexivity|].
+  destruct (if 0 <? a then _ else _) as [e pos]. destruct e; reflexivity.
+Qed.
+Lemma lists_mux_modify : forall s u x a, lists (fst (mux_modify_size s u x a)) = lists s.
+Proof.
+  intros. unfold mux_modify_size. destruct (a =? 0); [reflexivity|]. destruct (negb (memb x (usigs s u))); [reflexivity|].
+  destruct (mux_verify_size s u x a); try reflexivity. destruct (groups_of s u x) as [gs|]; [|reflexivity].
+  rewrite modify_groups_pos. reflexivity.
+Qed.
+Lemma lists_sig_modify : forall s x a, lists (fst (sig_modify_size s x a)) = lists s.
+Proof.
+  intros. unfold sig_modify_size. destruct (pmux s x); [apply lists_mux_modify|]. destruct (pmsg s x); [apply lists_msg_modify|reflexivity].
+Qed.
+Lemma lists_refs_modify : forall refs s a, lists (fst (refs_modify s refs a)) = lists s.
+Proof.
+  induction refs as [|r t IH]; intros s a; cbn [refs_modify]; [reflexivity|].
+  pose proof (lists_sig_modify s r a) as P. destruct (sig_modify_size s r a) as [s' e]. cbn [fst] in *.
+  destruct e; try exact P. rewrite IH. exact P.
+Qed.
+Lemma lists_enum_modify : forall s e a, lists (fst (enum_modify_size s e a)) = lists s.
+Proof. intros. unfold enum_modify_size. destruct (a =? 0); [reflexivity|apply lists_refs_modify]. Qed.
+
+(* the operations that move signals without attaching or detaching any keep every list *)
+Definition keeps_lists (o : op) : bool :=
+  match o with
+  | OShiftL _ _ _ | OShiftR _ _ _ | OCompact _ | OSetType _ _ | OSetEnum _ _ | OAddValue _ _ | OUpdateIndex _ _
+  | OMuxShiftL _ _ _ | OMuxShiftR _ _ _ => true
+  | _ => false
+  end.
+
+Lemma keeps_lists_spec : forall s o, keeps_lists o = true -> lists (fst (step s o)) = lists s.
+Proof.
+  intros s o Hk. destruct o; try discriminate; cbn [step].
+  - destruct (vmsg s m); [|reflexivity]. unfold step_shift. destruct (negb (memb x (gsigs s m))); [reflexivity|].
+    destruct (do_shift_left (sz s) (rel s) (glay s m) x a). reflexivity.
+  - destruct (vmsg s m); [|reflexivity]. unfold step_shift. destruct (negb (memb x (gsigs s m))); [reflexivity|].
+    destruct (do_shift_right (sz s) (rel s) (glsize s m) (glay s m) x a). reflexivity.
+  - destruct (vmsg s m); reflexivity.
+  - destruct (vsig s x); [|reflexivity]. unfold step_set_type. destruct (kind s x); try reflexivity. destruct (size <=? 0); [reflexivity|].
+    pose proof (lists_sig_modify s x (size - n)) as P. destruct (sig_modify_size s x (size - n)) as [s1 r]. cbn [fst] in P.
+    destruct r; exact P.
+  - destruct (vsig s x && venum s e); [|reflexivity]. unfold step_set_enum. destruct (kind s x); try reflexivity.
+    pose proof (lists_sig_modify s x (esize s e - sz s x)) as P. destruct (sig_modify_size s x (esize s e - sz s x)) as [s1 r]. cbn [fst] in P.
+    destruct r; exact P.
+  - destruct (venum s e); [|reflexivity]. unfold step_add_value. set (s0 := set_nval _ _).
+    destruct (verify_value_index s0 e idx); try reflexivity.
+    destruct (emax s0 e <? idx) eqn:El.
+    + pose proof (lists_enum_modify s0 e (esize_of (emin s0 e) idx - esize s0 e)) as P.
+      destruct (enum_modify_size s0 e (esize_of (emin s0 e) idx - esize s0 e)) as [s1 r]. cbn [fst] in P.
+      destruct r; try exact P. cbn [fst]. unfold lists in *. destruct (emax s1 e <? idx); cbn; exact P.
+    + cbn [fst]. rewrite El. reflexivity.
+  - destruct (vval s v); [|reflexivity]. unfold step_update_index. destruct (vidx s v =? idx); [reflexivity|].
+    destruct (vpar s v) as [e|]; [|reflexivity]. destruct (verify_value_index s e idx); try reflexivity.
+    set (amt := esize_of (emin s e) _ - esize s e).
+    pose proof (lists_enum_modify s e amt) as P. destruct (enum_modify_size s e amt) as [s1 r]. cbn [fst] in P.
+    destruct r; exact P.
+  - destruct (vmux s u); [|reflexivity]. unfold step_mux_shift. destruct (ugids s u x) as [ids|]; [|reflexivity].
+    destruct ids as [|g [|g2 r]]; try reflexivity. destruct (do_shift_left (sz s) (rel s) (gget s u (Z.to_nat g)) x a). reflexivity.
+  - destruct (vmux s u); [|reflexivity]. unfold step_mux_shift. destruct (ugids s u x) as [ids|]; [|reflexivity].
+    destruct ids as [|g [|g2 r]]; try reflexivity. destruct (do_shift_right (sz s) (rel s) (mux_gsize s u) (gget s u (Z.to_nat g)) x a). reflexivity.
+Qed.
+
+(* inserting into further groups of its multiplexer leaves the signal where it is *)
+Lemma mux_insert_rel_attached : forall s u x b gids, ok_op s (OMuxInsert u x b gids) -> attached s x ->
+  rel (fst (step_mux_insert s u x b gids)) x = rel s x.
+Proof.
+  intros s u x b gids Hop Hat. cbn [ok_op] in Hop. destruct Hop as [NA|[P _]]; [contradiction|].
+  unfold step_mux_insert.
+  destruct (if memb x (unames s u) then false else _); [reflexivity|].
+  destruct gids as [|g0 gr].
+  - rewrite P. reflexivity.
+  - set (ids := dedup (g0 :: gr) []). rewrite P.
+    destruct (verify_ids s u x b true (ufixed s u x) _ ids) eqn:Ev; [reflexivity|].
+    assert (Hne : ids <> []) by (unfold ids; cbn [dedup membZ existsb]; discriminate).
+    destruct (insert_ids (rel s) (ugroups s u) ids x b) as [pos gs] eqn:Ei. cbn [fst]. autorewrite with reg. cbn.
+    assert (Epos : pos = fst (insert_ids (rel s) (ugroups s u) ids x b)) by (rewrite Ei; reflexivity).
+    rewrite ins_ids_pos in Epos by exact Hne. subst pos. rewrite upd_same.
+    unfold verify_ids in Ev. pose proof (first_err_none _ _ Ev) as Hall. cbn beta in Hall.
+    destruct ids as [|g1 r1]; [congruence|]. specialize (Hall g1 (or_introl eq_refl)).
+    destruct (verify_gid s u g1); [discriminate|]. destruct (ufixed s u x || membZ g1 _); [discriminate|]. cbn [andb] in Hall.
+    destruct (Z.eqb_spec b (rel s x)); [assumption|discriminate].
+Qed.
+
+(* T4, relative order: two signals that are in a layout before and after an operation keep their order *)
+Theorem frame_order : forall s o L y z, InvA s -> ok_op s o ->
+  In y (lay s L) -> In z (lay s L) -> In y (lay (fst (step s o)) L) -> In z (lay (fst (step s o)) L) ->
+  (rel s y < rel s z <-> rel (fst (step s o)) y < rel (fst (step s o)) z).
+Proof.
+  intros s o L y z HA Hop Hy Hz Hy' Hz'.
+  destruct (keeps_lists o) eqn:Hk.
+  - (* the lists are the same: the order of the positions is the order of the list in both states *)
+    pose proof (inv_step s o HA Hop) as HA'. pose proof (lay_lists s _ (keeps_lists_spec s o Hk) L) as El.
+    pose proof (a_ok s HA L) as Hok. pose proof (a_ok _ HA' L) as Hok'. rewrite El in Hok', Hy', Hz'.
+    rewrite (ok_order _ _ _ _ _ y z Hok Hy Hz). rewrite (ok_order _ _ _ _ _ y z Hok' Hy' Hz'). reflexivity.
+  - (* no signal of the layout moves *)
+    assert (Hsame : forall t, In t (lay s L) -> In t (lay (fst (step s o)) L) -> rel (fst (step s o)) t = rel s t).
+    { intros t Ht Ht'. destruct (Z.eq_dec (rel (fst (step s o)) t) (rel s t)) as [E|NE]; [exact E|]. exfalso.
+      pose proof (frame_positions s o t HA Hop NE) as M.
+      assert (Hatt : attached s t) by (exists L; exact Ht).
+      destruct o; try discriminate; cbn [may_move ok_op] in M, Hop; try contradiction.
+      - subst t. contradiction.
+      - subst t. contradiction.
+      - subst t. apply NE. cbn [step]. destruct (vmux s u && vsig s x); [|reflexivity].
+        apply mux_insert_rel_attached; assumption. }
+    rewrite (Hsame y Hy Hy'), (Hsame z Hz Hz'). reflexivity.
 Qed.
